@@ -175,6 +175,7 @@ class ExpGens:
         self.base_side = list(inp.assumptions)
         self.fallbacks = 0
         self.decomposed = 0
+        self.failed = []          # np.exp arguments (S) that are no integer combination of the generators
 
     # declarations (mode-agnostic: return symbols in sym mode, numbers otherwise)
     def decay(self, name, g, sign=None):
@@ -288,6 +289,20 @@ class ExpGens:
         self.memo[key] = (expr, out)
         return out
 
+    def combination_formula(self, x):
+        """z3 formula: the exp argument x IS an integer combination (coefficients in [-rng, rng]) of the
+        declared generator arguments -- real part over the real bases, imaginary part over the phases"""
+        x = S.of(x)
+
+        def part(t, bases):
+            t = zr(t)
+            alts = []
+            for c in itertools.product(range(-self.rng, self.rng + 1), repeat=len(bases)):
+                comb = sum((n * b for n, b in zip(c, bases)), z3.RealVal(0))
+                alts.append(t == comb)
+            return z3.Or(*alts) if alts else t == 0
+        return z3.And(part(x.re, [g for g, _ in self.rb]), part(x.im, [t for t, _, _ in self.ib]))
+
     def exp(self, x):
         x = S.of(unwrap(x))
         if x.is_concrete():
@@ -296,6 +311,7 @@ class ExpGens:
         im = self._decomp(x.im, [t for t, _, _ in self.ib])
         if re is None or im is None:
             self.fallbacks += 1
+            self.failed.append(x)
             return generic_exp(x)
         self.decomposed += 1
         out = S(1)
